@@ -6,6 +6,9 @@ import (
 )
 
 func TestMain(m *testing.M) {
+	if os.Getenv("VERIF_CHILD") == "c14kill" {
+		os.Exit(c14KillChild())
+	}
 	if os.Getenv("VERIF_CHILD") != "" {
 		os.Exit(childMain())
 	}
